@@ -3,115 +3,33 @@ From Grule Require Import Base Values Syntax Lexer Parser GrlPrint EngineAbs Fac
   LexProofs ParserProofs JsonRule JsonProofs JsonParse.
 Open Scope Z_scope.
 
-Lemma wfj_sem_ok : (forall x, wfj x = true -> sem_ok x = true) /\ (forall l, wfjs l = true -> sem_oks l = true).
-Proof.
-  apply jx_mutind; intros; cbn [wfj wfjs sem_ok sem_oks] in *; try reflexivity.
-  - apply andb_true_iff in H0 as [H0 Hs]. apply andb_true_iff in H0 as [Hl _]. rewrite (H Hl). cbn [andb].
-    destruct o; try reflexivity. cbn [is_compound] in Hs.
-    apply orb_true_iff in Hs as [Hs|Hs]; apply andb_true_iff in Hs as [A B].
-    + apply Nat.eqb_eq in A. rewrite A. reflexivity.
-    + rewrite B. apply orb_true_r.
-  - apply andb_true_iff in H0 as [_ Hl]. auto.
-  - apply andb_true_iff in H1 as [Hx Hl]. rewrite (H Hx), (H0 Hl). reflexivity.
-Qed.
-
-(* ------------------------------------------------------------------------ *)
-(* the statement the property asks for, over typed JSON rules *)
-
-Definition same_rule (meth : list (string * fval) -> string -> list val -> res (option val * list (string * fval)))
-  (r : trule) (g : rule) : Prop :=
-  rname g = tname r /\ rdesc g = tdesc r /\ rsal g = tsal r /\
-  (forall fx, fresh_expr meth fx (rwhen g) = fresh_expr meth fx (cond_tree (twhen r))) /\
-  rthen g = map st_of (tthen r).
-
-(* FULL: every typed JSON rule the translator accepts denotes the same rule *)
-Definition C18_statement : Prop :=
-  forall r text, translate (rule_json r) = Ok text ->
-    exists g, parse_grl text = Ok [g] /\ same_rule fact_meth r g.
-
-(* malformed rules are rejected: in particular a binary operator with one operand *)
-Definition C18_arity_statement : Prop :=
-  forall r o x, is_compound o = false -> is_objx x = false ->
-    twhen r = WTree (XOp o (XCons x XNil)) -> translate (rule_json r) = Err.
-
-(* ---- the witnesses of the findings ---- *)
-Definition call_complete : jst := TCall (HFun "Complete") XNil.
-Definition one_eq_one : jx := XOp JEq (XCons (XNum 1) (XCons (XNum 1) XNil)).
-
-(* D12: the description arrives escaped *)
-Definition d12_rule : trule :=
-  {| tname := "R"; tdesc := "say ""hi"""; tsal := 0; twhen := WTree one_eq_one; tthen := [call_complete] |}.
-(* D13: a two-operand "not" over an operator object *)
-Definition d13_rule : trule :=
-  {| tname := "R"; tdesc := ""; tsal := 0;
-     twhen := WTree (XOp JNe (XCons one_eq_one (XCons (XBool true) XNil))); tthen := [call_complete] |}.
-(* D14: a binary operator with one operand *)
-Definition d14_rule : trule :=
-  {| tname := "R"; tdesc := ""; tsal := 0;
-     twhen := WTree (XOp JEq (XCons (XBool true) XNil)); tthen := [call_complete] |}.
-
-Lemma d12_facts : wf_trule d12_rule = true /\ rdesc (rule_of d12_rule) <> tdesc d12_rule.
-Proof. split; [vm_compute; reflexivity|vm_compute; discriminate]. Qed.
-
-Lemma C18_statement_refuted_by_description : ~ C18_statement.
-Proof.
-  intros H. destruct d12_facts as [Hwf Hd]. destruct (json_rule_parses d12_rule Hwf) as [Ht Hp].
-  destruct (H d12_rule _ Ht) as (g & Hg & _ & Hdesc & _). rewrite Hp in Hg. inversion Hg; subst g.
-  apply Hd. exact Hdesc.
-Qed.
-
-Lemma d13_facts :
-  exists text g, translate (rule_json d13_rule) = Ok text /\ parse_grl text = Ok [g] /\
-    fresh_expr fact_meth [] (rwhen g) <> fresh_expr fact_meth [] (cond_tree (twhen d13_rule)).
-Proof.
-  eexists. eexists. split; [vm_compute; reflexivity|]. split; [vm_compute; reflexivity|].
-  vm_compute. discriminate.
-Qed.
-
-Lemma C18_statement_refuted_by_not : ~ C18_statement.
-Proof.
-  intros H. destruct d13_facts as (text & g & Ht & Hp & Hne).
-  destruct (H d13_rule text Ht) as (g' & Hg & _ & _ & _ & Hsem & _). rewrite Hp in Hg. inversion Hg; subst g'.
-  apply Hne. apply Hsem.
-Qed.
-
-Lemma C18_arity_refuted : ~ C18_arity_statement.
-Proof.
-  intros H. specialize (H d14_rule JEq (XBool true) eq_refl eq_refl eq_refl). vm_compute in H. discriminate.
-Qed.
-
-(* ---- PARTIAL: the same statement under the decidable side condition wf_trule
-   (JsonParse.v), which excludes exactly: a join operator with one operand (D14),
-   a "not" with several operands one of which is an operator object (D13), and / or
-   nested deeper than 1000; plain-string operands are the canonical text of a
-   well-formed atom; plain-string actions end in ";".  The description is
-   compared modulo the escaping the listener does not undo (D12). ---- *)
-Definition C18_partial_statement : Prop :=
+(* ---- the statement of the property over typed JSON rules.  The decidable side
+   condition wf_trule (JsonParse.v) demands nothing but
+   - the shape every accepted rule has anyway: a name that is an identifier, a
+     non-empty action list, "when" an operator object or a plain string, join
+     operators with two or more operands ("not": one or more), and / or over two
+     or more objects (the translator or the builder reject everything else:
+     C18_malformed, C17_reject);
+   - the spelling of plain strings: a plain-string operand is the canonical text of
+     a well-formed atom, a plain-string condition that of a well-formed expression,
+     a plain-string action that of a well-formed statement ending in ";";
+   - the numeric ranges: salience within 32 bits, integer constants within 64;
+   - and / or nested at most 1000 deep (the translator's own limit is 1024). ---- *)
+Definition C18_main_statement : Prop :=
   forall r, wf_trule r = true ->
     exists text g, translate (rule_json r) = Ok text /\ parse_grl text = Ok [g] /\
-      rname g = tname r /\ rdesc g = quote_body (tdesc r) /\ rsal g = tsal r /\
+      rname g = tname r /\ rdesc g = tdesc r /\ rsal g = tsal r /\
       (forall meth fx, fresh_expr meth fx (rwhen g) = fresh_expr meth fx (cond_tree (twhen r))) /\
       rthen g = map st_of (tthen r).
 
-Lemma C18_partial_proved : C18_partial_statement.
+Lemma C18_main_proved : C18_main_statement.
 Proof.
   intros r H. destruct (json_rule_parses r H) as [Ht Hp].
   exists (rule_text r), (rule_of r). repeat split; try assumption.
   intros meth fx. cbn [rule_of rwhen]. apply json_cond_sem.
-  unfold wf_trule in H. repeat (apply andb_true_iff in H as [H ?]).
-  destruct (twhen r) as [e|x]; [reflexivity|]. cbn [wf_jcond] in H2. apply andb_true_iff in H2 as [Hw _].
-  apply (proj1 wfj_sem_ok x Hw).
 Qed.
 
-(* descriptions that need no escaping are stored exactly *)
-Lemma C18_description_plain : forall r, wf_trule r = true -> quote_body (tdesc r) = tdesc r ->
-  exists text g, translate (rule_json r) = Ok text /\ parse_grl text = Ok [g] /\ rdesc g = tdesc r.
-Proof.
-  intros r H E. destruct (C18_partial_proved r H) as (text & g & Ht & Hp & _ & Hd & _).
-  exists text, g. rewrite Hd, E. auto.
-Qed.
-
-Example partial_side_condition_nontrivial :
+Example side_condition_nontrivial :
   wf_trule {| tname := "Discount"; tdesc := "ten percent for big orders"; tsal := 10;
               twhen := WTree (XOp JAnd (XCons
                          (XOp JGt (XCons (XOp JMul (XCons (XPlain (AVar (VMember (VName "F") "A")))
@@ -138,6 +56,7 @@ Definition C18_malformed_statement : Prop :=
   (forall a b l d, bex (JObj (a :: b :: l)) d = Err) /\
   (forall k v d, known_key k = false -> bex (JObj [(k, v)]) d = Err) /\
   (forall o d, bex (JObj [(jop_key o, JArr [])]) d = Err) /\
+  (forall o x d, is_compound o = false -> o <> JNe -> bex (JObj [(jop_key o, JArr [x])]) d = Err) /\
   (forall o x d, is_compound o = true -> bex (JObj [(jop_key o, JArr [x])]) d = Err) /\
   (forall d, bex (JObj [("set"%string, JArr [])]) d = Err) /\
   (forall x d, bex (JObj [("set"%string, JArr [x])]) d = Err) /\
@@ -159,6 +78,7 @@ Proof.
     rewrite E, E0. cbn [orb]. cbn [join_ops alookup]. rewrite E1, E2, E3, E4, E5, E6, E7, E8, E9, E10, E11, E12, E13.
     rewrite E14, E15, E16, E17. reflexivity.
   - intros o d. destruct o; cbn [bex]; destruct (1024 <? d); reflexivity.
+  - intros o x d Hc Hn. destruct o; try discriminate; try congruence; cbn [bex]; destruct (1024 <? d); reflexivity.
   - intros o x d H. destruct o; try discriminate; cbn [bex]; destruct (1024 <? d); reflexivity.
   - intros d. cbn [bex]. destruct (1024 <? d); reflexivity.
   - intros x d. cbn [bex]. destruct (1024 <? d); reflexivity.
